@@ -47,6 +47,10 @@ let handle (line : string) : string =
     (match server_session_ok chain_ok valid_now t "A" cli (ver_or V10 (get a "pmin")) (ver_or V13 (get a "pmax")) with
      | Some v -> "admitted=1 ver=" ^ ver_s v
      | None -> "admitted=0 ver=0")
+  | "HS" :: _ ->
+    let t = { t_enabled = true; t_verify_peer = (get a "require" = "1"); t_has_ca = true; t_min_version = None } in
+    let cli = (match get a "ccert" with "none" -> None | c -> Some ("cli_" ^ c)) in
+    (match server_session_ok chain_ok valid_now t "A" cli V12 V13 with Some _ -> "served=1" | None -> "served=0")
   | "NC" :: _ ->
     let refused = (match get a "kind" with
         | "listener" -> (match listener_mode true CtxNone with MRefused -> true | _ -> false)
